@@ -71,6 +71,8 @@ def judge(lay, prog, std, ref_canon=None):
     out = []
     text = lay.text
     fold = any(f.startswith("case") for f in lay.features)
+    if "case3" in lay.features:
+        fold = "all"
     for ic in (True, False):
         try:
             r, items = stream.read_all(text, ignore_comments=ic)
